@@ -504,3 +504,115 @@ def splice_value_calls(expr: ast.AST, resolve: Callable[[ast.Call], tuple[FuncNo
         if not changed:
             break
     return expr
+
+
+# ------------------------------------------------------------------------------------ procedure splicing
+def _single_exit(stmts: list[ast.stmt], ret: str) -> list[ast.stmt] | None:
+    """Rewrite a statement list with early returns (in if/else only) into one without `return`, where
+    every path assigns the result to `ret`; None when a return sits in a loop / try / with / match."""
+    out: list[ast.stmt] = []
+    for i, s in enumerate(stmts):
+        if isinstance(s, ast.Return):
+            val = s.value if s.value is not None else ast.Constant(value=None)
+            out.append(ast.copy_location(ast.Assign(targets=[ast.Name(id=ret, ctx=ast.Store())], value=val), s))
+            return out
+        has_ret = any(isinstance(n, ast.Return) for n in walk_own(s))
+        if not has_ret:
+            out.append(s)
+            continue
+        if not isinstance(s, ast.If):
+            return None
+        rest = stmts[i + 1:]
+        body = _single_exit(list(s.body) + rest, ret)
+        orelse = _single_exit(list(s.orelse) + rest, ret)
+        if body is None or orelse is None:
+            return None
+        new = ast.If(test=s.test, body=body or [ast.Pass()], orelse=orelse)
+        out.append(ast.copy_location(new, s))
+        return out
+    out.append(ast.Assign(targets=[ast.Name(id=ret, ctx=ast.Store())], value=ast.Constant(value=None)))
+    return out
+
+
+def rename_and_bind(stmts: list[ast.stmt], rename: dict[str, str], binds: dict[str, ast.AST]) -> list[ast.stmt]:
+    class T(ast.NodeTransformer):
+        def visit_Name(self, node: ast.Name) -> ast.AST:  # noqa: N802
+            if node.id in rename:
+                return ast.copy_location(ast.Name(id=rename[node.id], ctx=node.ctx), node)
+            if isinstance(node.ctx, ast.Load) and node.id in binds:
+                return ast.copy_location(copy.deepcopy(binds[node.id]), node)
+            return node
+
+        def visit_Lambda(self, node: ast.Lambda) -> ast.AST:  # noqa: N802
+            if set(params_of(node)) & (set(rename) | set(binds)):
+                return node
+            return self.generic_visit(node)
+
+    return [T().visit(copy.deepcopy(s)) for s in stmts]
+
+
+def splice_procedures(root: FuncNode, resolve: Callable[[ast.Call], tuple[FuncNode, list[str]] | None],
+                      rounds: int = 3, max_stmts: int = 40) -> FuncNode:
+    """Splice (on a copy) calls of private procedures that are a whole statement - `h(a)`, `x = h(a)`,
+    `await h(a)`, `x = await h(a)` - into the caller: parameters replaced by the argument expressions, the
+    helper's locals renamed, early returns turned into if/else (any number of returns outside loops).
+    Analysis-only.  `resolve(call)` gives (helper node, parameters bound by a call) or None."""
+    root = copy.deepcopy(root)
+    counter = 0
+    for _ in range(rounds):
+        changed = False
+        for holder in list(ast.walk(root)):
+            for field in ("body", "orelse", "finalbody"):
+                suite = getattr(holder, field, None)
+                if not (isinstance(suite, list) and suite and isinstance(suite[0], ast.stmt)):
+                    continue
+                i = 0
+                while i < len(suite):
+                    s = suite[i]
+                    i += 1
+                    if not isinstance(s, (ast.Expr, ast.Assign, ast.AnnAssign)) or getattr(s, "value", None) is None:
+                        continue
+                    v = s.value
+                    awaited = isinstance(v, ast.Await)
+                    call = v.value if awaited else v
+                    if not isinstance(call, ast.Call):
+                        continue
+                    r = resolve(call)
+                    if r is None:
+                        continue
+                    helper, ps = r
+                    if helper is root or isinstance(helper, ast.AsyncFunctionDef) != awaited:
+                        continue
+                    b = bind_call(call, ps)
+                    if b is None or set(b) != set(ps):
+                        continue
+                    body = list(helper.body)
+                    if body and isinstance(body[0], ast.Expr) and isinstance(body[0].value, ast.Constant):
+                        body = body[1:]
+                    hb = _collect_bindings(helper)
+                    if any(p in hb for p in ps) or sum(1 for _n in ast.walk(helper)) > 60 * max_stmts \
+                            or any(isinstance(n, _DEFS + (ast.Yield, ast.YieldFrom, ast.Global, ast.Nonlocal)) for st in body for n in ast.walk(st)):
+                        continue
+                    counter += 1
+                    ret = f"ret__{helper.name.strip('_')}_{counter}"
+                    flat = _single_exit(body, ret)
+                    if flat is None or len(flat) > max_stmts:
+                        continue
+                    rename = {n: f"{n}__{helper.name.strip('_')}_{counter}" for n in hb}
+                    new = rename_and_bind(flat, rename, b)
+                    if isinstance(s, ast.Assign):
+                        new.append(ast.copy_location(ast.Assign(targets=s.targets, value=ast.Name(id=ret, ctx=ast.Load())), s))
+                    elif isinstance(s, ast.AnnAssign):
+                        new.append(ast.copy_location(ast.AnnAssign(target=s.target, annotation=s.annotation,
+                                                                    value=ast.Name(id=ret, ctx=ast.Load()), simple=s.simple), s))
+                    for st in new:
+                        for n in ast.walk(st):
+                            if not hasattr(n, "lineno") and isinstance(n, (ast.stmt, ast.expr)):
+                                ast.copy_location(n, s)
+                    suite[i - 1:i] = new
+                    i += len(new) - 1
+                    changed = True
+        if not changed:
+            break
+    ast.fix_missing_locations(root)
+    return root
